@@ -303,6 +303,6 @@ func main() {
 		}
 		emit(c, pages, cls)
 	}
-	sessionTier(r, out, tier)
-	out.Close(nil)
+	extra := sessionTier(r, out, tier)
+	out.Close(extra)
 }
